@@ -1,6 +1,7 @@
 use bytes::Bytes;
 use std::sync::atomic::Ordering;
 use std::sync::Arc;
+#[cfg_attr(feoxdb_verif, allow(unused_imports))]
 use std::time::{SystemTime, UNIX_EPOCH};
 
 use crate::constants::*;
@@ -726,12 +727,13 @@ impl FeoxStore {
         if self.enable_ttl {
             let ttl_expiry = record.ttl_expiry.load(Ordering::Acquire);
             if ttl_expiry > 0 {
+                #[cfg(not(feoxdb_verif))]
                 let now = SystemTime::now()
                     .duration_since(UNIX_EPOCH)
                     .unwrap_or_default()
                     .as_nanos() as u64;
                 #[cfg(feoxdb_verif)]
-                let now = crate::verif::now_nanos().unwrap_or(now);
+                let now = crate::verif::wall_nanos();
                 if now > ttl_expiry {
                     self.stats.ttl_expired_lazy.fetch_add(1, Ordering::Relaxed);
                     return Err(FeoxError::KeyNotFound);
